@@ -37,4 +37,6 @@ pub fn texts(seed: u64, n: usize, broken: bool) -> Vec<String> {
     out
 }
 /// parse "... thorough:<seed>" out of the obligation string handed to `cases`
-pub fn thorough_seed(ob: &str) -> Option<u64> { ob.split_whitespace().find_map(|w| w.strip_prefix("thorough:")).and_then(|s| s.parse().ok()) }
+pub fn thorough_seed(ob: &str) -> Option<u64> { ob.split_whitespace().find_map(|w| w.strip_prefix("thorough:").or_else(|| w.strip_prefix("quick:"))).and_then(|s| s.parse().ok()) }
+/// how many random texts: the full count in the thorough tier, a quarter in the quick tier
+pub fn scale(ob: &str, n: usize) -> usize { if ob.contains("thorough:") { n } else { n / 4 } }
